@@ -167,7 +167,7 @@ class C17(Check):
         rng = Rng('c17-exh')
         geoms = []
         for kind, ext in (('diff', 0), ('diff', 1), ('disa', 0)):
-            geoms.append({'kind': kind, 'active': rng.getrandbits(1), 'seed': rng.getrandbits(32), 'parts': [
+            geoms.append({'kind': kind, 'active': rng.pick(sc.ACTIVE_VALUES), 'seed': rng.getrandbits(32), 'parts': [
                 {'size': 150, 'ivfc_log2': [5, 5, 6, 5], 'dpfs_log2': [None, 2, 5], 'external': ext, 'selector': rng.getrandbits(1),
                  'uninit': []}]})
         for g in geoms:
